@@ -9,8 +9,10 @@ FUNCTIONS = ['sexp_decode_utf8_char', 'sexp_utf8_encode_char', 'sexp_utf8_char_b
 
 
 def queries(tier):
-    return [Query(name='char-literal decode[all non-ASCII scalar values; arbitrary 4 bytes]', harness='C08_rw.c', units=UNITS, unit_defs=UD, defs={},
-                  unwind=6, unwindset={'strlen.0': 6}, remove_bodies=EXC, cap=300, backends=['cadical', 'minisat', 'kissat'])]
+    return [Query(name=nm, harness='C08_rw.c', units=UNITS, unit_defs=UD, defs={'PART': part}, unwind=6, unwindset={'strlen.0': 6},
+                  remove_bodies=EXC, cap=300, backends=['cadical', 'minisat', 'kissat'], functions=FUNCTIONS)
+            for part, nm in ((1, 'char-literal decode[all non-ASCII scalar values: decode(encode(c)) == c]'),
+                             (2, 'char-literal decode[arbitrary 4 bytes: total, value only for lead+continuation]'))]
 
 
 BOUNDS = {'chars': 'all scalar values 0x80..0x10FFFF minus surrogates (21 free bits), all four UTF-8 width classes in one query',
